@@ -408,7 +408,7 @@ def tla_prints(out, tags):
     return res
 
 
-def tlc_explore(ctx, plats, pairs, tag, dev="none", print_exp=True, timeout=900, workers=None, coverage=False,
+def tlc_explore(ctx, plats, pairs, tag, dev="none", print_exp=True, timeout=900, workers=1, coverage=False,
                 keep_going=False):
     """(M) HierMC on pairs = [(platform number 1-based, src name, dst name)].  Returns (TlcResult, exp, dist):
     exp[k] = list of {l, lat, vt, fl} expected behaviours of pair k; dist[(p, zone number)] = {a: {b: count}}."""
@@ -435,7 +435,7 @@ def tlc_explore(ctx, plats, pairs, tag, dev="none", print_exp=True, timeout=900,
     return r, exp, dist
 
 
-def tlc_validate(ctx, plats, items, tag, dev="none", timeout=900, workers=None):
+def tlc_validate(ctx, plats, items, tag, dev="none", timeout=900, workers=1):
     """(T) HierTrace on items = [(platform number, src name, dst name, [link numbers])].  Returns (TlcResult, acc):
     acc[k] = list of {lat, vt, fl} of the accepting behaviours of item k (empty = rejected)."""
     pf = _write_plats(ctx, plats, tag)
@@ -479,7 +479,7 @@ def latency_matches(a, got):
 
 # ------------------------------------------------------------------------------------------- one batch: run, bind, M, T, compare
 
-def check_platforms(ctx, plats, tag, explore=True, print_exp=False, tlc_timeout=1500, mc_pairs=None, workers=None):
+def check_platforms(ctx, plats, tag, explore=True, print_exp=False, tlc_timeout=1500, mc_pairs=None, workers=1):
     """Runs the implementation on every platform, then M (optional) and T.  Reports violations through ctx.
     Returns per-platform dict with routes (records + 'ids'), acc, exp."""
     results = [run_driver(ctx, pl, "%s_%d" % (tag, i)) for i, pl in enumerate(plats)]
@@ -548,7 +548,7 @@ def check_platforms(ctx, plats, tag, explore=True, print_exp=False, tlc_timeout=
     return out
 
 
-def classify(ctx, plats, out, tag, workers=None):
+def classify(ctx, plats, out, tag, workers=1):
     """Second look at the routes that the strict specification rejects: returns the list of (platform index, route
     record, signature or None, explanation).  A signature is given when the rejected route is explained by one of the
     defects recorded in KNOWN_FINDINGS.jsonl (see SIG_*), decided with TLC: flags of the expected behaviours (HierMC)
@@ -1199,8 +1199,10 @@ def run_check(ctx, plats, chunk, nontrivial, rule, mc_pairs=None):
     classified and confirmed by running the implementation a second time, then reported from the main thread."""
     ctx.cov["rule"] = rule
     chunks = [list(range(i, min(len(plats), i + chunk))) for i in range(0, len(plats), chunk)]
-    npar = max(1, min(4, len(chunks)))
-    workers = max(2, vlib.NCPU // npar)
+    # one TLC worker per run: the inputs and tables live in TLC registers (TLCSet) and are shared, not deep-normalised
+    # values; parallelism comes from running the chunks in separate TLC processes
+    npar = max(1, min(max(2, vlib.NCPU // 2), len(chunks)))
+    workers = 1
 
     def do(ci_idx):
         ci, idx = ci_idx
